@@ -24,6 +24,25 @@ SS = "bempp_cl/api/space/scalar_spaces.py"
 FN = "_compute_p1_dof_map"
 
 
+def _membership(body, already):
+    """The statements with every `x in <list>` / `x not in <list>` test, where <list> is a list the code appends to,
+    replaced by its value in the world where x is / is not a member yet (the effect analysis cannot decide such a test)."""
+    import copy
+
+    lists = {unparse(c.func.value) for st in body for c in ast.walk(st) if isinstance(c, ast.Call) and isinstance(c.func, ast.Attribute) and c.func.attr == "append"}
+
+    class T(ast.NodeTransformer):
+        def visit_Compare(self, node):
+            if len(node.ops) == 1 and isinstance(node.ops[0], (ast.In, ast.NotIn)) and unparse(node.comparators[0]) in lists:
+                return ast.copy_location(ast.Constant(already if isinstance(node.ops[0], ast.In) else not already), node)
+            return node
+
+    out = [T().visit(copy.deepcopy(st)) for st in body]
+    for st in out:
+        ast.fix_missing_locations(st)
+    return out
+
+
 def analyse(fn):
     p = arg_names(fn)
     if len(p) != 6:
@@ -109,7 +128,15 @@ def analyse(fn):
             for inc in (True, False):
                 for tr in (True, False):
                     env = {"len(%s)" % NS: nout, "%s.vertex_on_boundary[%s]" % (gd, V): onb, include: inc, trunc: tr}
-                    top = dispatch.effects(inner.body, env, FN)
+                    top = dispatch.effects(_membership(inner.body, False), env, FN)
+                    if nout > 0 and inc and not tr:
+                        # the same neighbour may already have joined the extended support through ANOTHER vertex of the
+                        # segment boundary (it shares an edge with the segment): the slot of THIS vertex is written all the same
+                        again = [e for e in dispatch.effects(_membership(inner.body, True), env, FN) if e[0] == "loop"]
+                        sts2 = [e for l in again for e in l[2] if e[0] == "store" and e[1].startswith(T + "[") and e[2] == V]
+                        if len(again) == 1 and not sts2:
+                            out.append(("first pass: an outside neighbour that already joined the extended support through another vertex", False,
+                                        "when the neighbour is already in the extended support the loop body does not store the vertex at the neighbour's slot: an element outside the segment that shares an EDGE with it gets only the first of its two boundary vertices", inner.lineno))
                     effs = list(_flat(top))
                     own = [e for e in effs if e[0] == "store" and e[1].replace(" ", "") == "%s[%s,%s]" % (T, el, li)]
                     flag = [e for e in effs if e[0] == "store" and e[1].replace(" ", "") == "%s[%s]" % (FL, V)]
